@@ -517,6 +517,21 @@ func (w *wbuild) Drive(s *simrt.Sched, out *RunResult) {
 					cands = multi
 					simrt.Probe("drift-after-damage:dependant-needs-several-dependencies")
 				}
+				// ... and triangles: the dependant also depends directly on a dependency of the lost
+				// dependency (re-running the latter needs the former while the dependant holds it)
+				var tri [][2]string
+				for _, pr := range cands {
+					for _, g := range w.U.DepTargets(w.U.Specs[pr[1]]) {
+						if g != pr[0] && w.U.dependsOn(pr[0], g) && len(w.U.Specs[g].Outs) > 0 {
+							tri = append(tri, pr)
+							break
+						}
+					}
+				}
+				if len(tri) > 0 && chance(c, 3, 4, "drift-triangle") {
+					cands = tri
+					simrt.Probe("drift-after-damage:triangle")
+				}
 				if len(cands) > 0 {
 					pr := cands[c.Choose(len(cands), "drift-pair")]
 					snapshots = append(snapshots, w.U.Clone())
